@@ -125,6 +125,15 @@ structure JWT where
   Header : Obj
   Claims : Obj
 
+/-- a key of the provider's key set as the translated functions read it -/
+structure JWK where
+  Kid : Str
+  Kty : Str
+structure JWKSet where
+  Keys : List JWK
+/-- a PEM-encoded public key (only handed from `jwkToPEM` to `verifySignature`) -/
+abbrev Pem := Str
+
 /-- the instance: the fields the translated functions read, and the functions of /repo they call that are not themselves
     translated (`tools/go2lean` lists them as `externals`): these are parameters the theorems quantify over -/
 structure Inst where
@@ -136,8 +145,14 @@ structure Inst where
   extractClaimsFunc : Str → Obj × Err
   /-- `parseJWT(token)` -/
   parseJWT : Str → JWT × Err
-  /-- `t.VerifyJWTSignatureAndClaims(jwt, token)` at the instant of the call -/
-  VerifyJWTSignatureAndClaims : JWT → Str → Err
+  issuerURL : Str
+  clientID : Str
+  /-- `t.jwkCache.GetJWKS(ctx, t.jwksURL, t.httpClient)`: the provider's key set as cached or fetched, or an error -/
+  getJWKS : JWKSet × Err
+  /-- `jwkToPEM(key)` -/
+  jwkToPEM : Option JWK → Pem × Err
+  /-- `verifySignature(token, pem, alg)` -/
+  verifySignature : Str → Pem → Str → Err
 
 /-- `*SessionData` as the translated functions read it: the results of its getters -/
 structure Sess where
